@@ -124,6 +124,34 @@ def bandwidth_worlds(ck, n, start):
     return out
 
 
+def tradeoff_worlds(ck, n, start):
+    """2-level matmuls with a long m against short n, k, an expensive DRAM and a slow GLB whose throughput is not a power
+    of two: keeping a tensor in the GLB saves energy and costs GLB bandwidth, so the energy-latency front has several
+    points that are close to each other (within a factor 2 in both objectives)."""
+    rng = random.Random(9900 * ck.seed + start)
+    out = []
+    for i in range(n):
+        bounds = [[32, 2, 2], [16, 4, 4], [16, 2, 4], [32, 4, 2]][i % 4]
+        w = mc.gen_microspec(rng, start + i, n_mem=2, bounds=bounds, kind="matmul")
+        for t in w["tensors"]:
+            w["wbits"][t] = 8
+            for c in w["bits"]:
+                w["bits"][c][t] = 8
+        mems = sorted(w["level"], key=lambda c: w["level"][c])
+        e = {mems[0]: rng.choice([5, 10]), mems[1]: 1}
+        tp = {mems[0]: [rng.choice([2, 4]), 1], mems[1]: [rng.choice([7, 3, 5]), 1]}
+        for c in mems:
+            for a in w["cost"][c]["energy"]:
+                w["cost"][c]["energy"][a] = e[c]
+                w["cost"][c]["tput"][a] = tp[c]
+        w["keep"][mems[1]] = []
+        w["maykeep"][mems[1]] = list(w["tensors"])
+        w["size"][mems[1]] = 0
+        w["mac"]["energy"], w["mac"]["tput"] = 1, [1, 1]
+        out.append(w)
+    return out
+
+
 def report(ck, pid, traces, verdicts, worlds_by_trace, configs_by_step):
     """Turn ConfigLattice verdict records into violations."""
     for v in verdicts:
